@@ -7,11 +7,14 @@
            | {"k":"closeSend","p":id} | {"k":"recv","r":id,"eof":bool,"c":..,"e":..} | {"k":"close","r":id} ]}
 
   Answer: {"ok":true,"created":[ids made by the last op],
-           "readers":[[id, recvEnabled, selectBelow, kind]], "writers":[[id, sendCode, drainable, drainBound, cap]]}
+           "readers":[[id, recvEnabled, selectBelow, kind, listed]], "writers":[[id, sendCode, drainable, drainBound, cap]]}
+           (listed = for a copy: the number of items that wait for it in the shared list of its Copy cell,
+            read there by a sibling and not yet by this copy; 0 for every other kind of reader)
        or {"ok":false,"at":index,"why":"mismatch:…"|"bad-op:…","allowed":[…]}.
 -/
 import EinoV.Basic.JsonUtil
 import EinoV.Model.C08Net
+import EinoV.Model.C08Late
 import EinoV.Expected.C08
 
 namespace EinoV.Oracle.C08
@@ -56,6 +59,15 @@ def kindCode (net : Net) (id : Nat) : Nat :=
 
 def b2n (b : Bool) : Nat := if b then 1 else 0
 
+/-- items that wait for copy `id` in the shared list of its cell (`EinoV.C08.listedFor`, Model/C08Late.lean) -/
+def listed (net : Net) (id : Nat) : Nat :=
+  match net.nodes[id]? with
+  | some (.child par idx) =>
+    match net.nodes[par]? with
+    | some (.parent _ core) => listedFor core idx
+    | _ => 0
+  | _ => 0
+
 /-- combine the answers of the candidate states conservatively -/
 def combineSend (cs : List Nat) : Nat :=
   match cs with
@@ -67,7 +79,7 @@ def stateJson (F : Facts) (nets : List Net) (created : List Nat) : Json :=
   | [] => Json.mkObj [("ok", Json.bool false), ("at", (0 : Nat)), ("why", Json.str "model-error: no state")]
   | net :: _ =>
   let readers := net.readers.map fun r =>
-    J.mkNats [r, b2n (nets.all fun n => !(recvAll F fuel n r).isEmpty), b2n (hasMerge fuel net r), kindCode net r]
+    J.mkNats [r, b2n (nets.all fun n => !(recvAll F fuel n r).isEmpty), b2n (hasMerge fuel net r), kindCode net r, listed net r]
   let writers := net.writers.filterMap fun p =>
     match getPipe net p with
     | some x =>
